@@ -62,7 +62,7 @@ func ruleOptionPropagation(w *World, r *Report) {
 		ts = append(ts, t)
 	}
 	sort.Slice(ts, func(i, j int) bool { return typeShort(ts[i]) < typeShort(ts[j]) })
-	r.Expect("NodeRenderer types", len(ts), 6)
+	r.Expect("NodeRenderer types", len(ts), 3)
 	for _, t := range ts {
 		reads := false
 		for _, fn := range byType[t] {
@@ -159,7 +159,7 @@ func ruleOptionPropagation(w *World, r *Report) {
 			r.OK(key, w.FnPos(m), "unmatched names are forwarded to the embedded html.Config.SetOption")
 		}
 	}
-	r.Expect("hand-written SetOption methods on types embedding html.Config", n, 2)
+	r.Expect("hand-written SetOption methods on types embedding html.Config", n, 1)
 
 	r.Rule("C10-Pc", "Writer/reader agreement: for every option type with SetConfig (stores Options[k]) and SetHTMLOption (stores field F directly), (*html.Config).SetOption has a case for the same constant k that stores into the same field F.")
 	caseField := map[string]string{}
@@ -189,7 +189,7 @@ func ruleOptionPropagation(w *World, r *Report) {
 			}
 		}
 	}
-	r.Expect("cases of (*html.Config).SetOption", len(caseField), 5)
+	r.Expect("cases of (*html.Config).SetOption", len(caseField), 2)
 	pairs := 0
 	for _, t := range w.NamedTypes() {
 		sc := w.DeclaredMethod(t, "SetConfig")
@@ -233,7 +233,7 @@ func ruleOptionPropagation(w *World, r *Report) {
 			r.Bad(okey, w.FnPos(sc), "Config.SetOption stores this name into field "+caseField[key]+" but SetHTMLOption stores into "+field)
 		}
 	}
-	r.Expect("option types with both a by-name and a direct setter", pairs, 5)
+	r.Expect("option types with both a by-name and a direct setter", pairs, 2)
 
 	r.Rule("C10-Pd", "Render's Once-closure copies config.Options into the options it ranges over, and for every node renderer calls SetOption(name, value) for every entry — guarded only by the SetOptioner type test — before that renderer's RegisterFuncs.")
 	for _, oc := range w.renderOnceClosures() {
@@ -515,7 +515,7 @@ func ruleFlagUses(w *World, r *Report) {
 	// ---------- X
 	r.Rule("C10-X", "Every load of Config.XHTML is used solely as the condition of a two-way branch whose arms, up to their join, perform only constant writes with html_arm == ReplaceAll(xhtml_arm, \" />\", \">\"), or write nothing and only select a constant of an enum type (the table alignment method, excluded by the statement).")
 	xs := w.flagLoads("XHTML")
-	r.Expect("loads of Config.XHTML", len(xs), 5)
+	r.Expect("loads of Config.XHTML", len(xs), 3)
 	for _, u := range xs {
 		fn := u.Parent()
 		key := w.FnKey(fn) + ": XHTML"
@@ -713,7 +713,7 @@ func ruleFlagUses(w *World, r *Report) {
 	// ---------- U
 	r.Rule("C10-U", "Every load of Config.Unsafe is used only as a branch condition, either in a render function registered for the HTML-block/raw-HTML kinds (true arm: node bytes; false arm: only constants) or immediately in front of the IsDangerousURL test guarding a URL write (C04).")
 	us := w.flagLoads("Unsafe")
-	r.Expect("loads of Config.Unsafe", len(us), 4)
+	r.Expect("loads of Config.Unsafe", len(us), 3)
 	rawFuncs := map[*ssa.Function]bool{}
 	for _, reg := range w.Registrations() {
 		if reg.Kind != nil && (reg.Kind.Name() == "KindHTMLBlock" || reg.Kind.Name() == "KindRawHTML") && reg.Func != nil {
